@@ -16,7 +16,7 @@
      a deleted file stays in the list with f_alive = false; the directory listing is filter f_alive. *)
 From Coq Require Import Sorting.Sorted.
 From SV Require Import Base.Bytes Base.SrcAst Spec.Civil Model.Time Model.LogFile Proofs.LogFileP Proofs.LogFileW Proofs.LogFileS Proofs.LogFileO Proofs.LogFileR
-  Tie.FmtEval Tie.WriterTie Generated.SourceParams.
+  Tie.FmtEval Tie.WriterTie Tie.FileSetTie Generated.SourceParams.
 
 (* C19.1  len_is_sum -- PrefixFileSet.len equals the sum of the lengths in the heap after every
    sequence of API calls (debug build: whenever the call returns), ... *)
@@ -288,6 +288,22 @@ Proof. exact logfile_name_tie. Qed.
 Theorem c19_builder_defaults_are_the_source :
   src_default_max_write_age_secs = 86400 /\ src_default_max_write_bytes = 10485760 /\ src_min_max_write_bytes = 65536.
 Proof. exact writer_defaults_tie. Qed.
+(* PrefixFileSet (src/log/prefix_file_set.rs) as translated on this run, interpreted by Tie/FileSetTie.v: the heap
+   order read from `impl Ord for PrefixFile` is the model's order after D18; delete_oldest statement by statement is
+   the model's delete_oldest for every state, profile and tie schedule; the loop tests are the model's; push is the
+   model's push *)
+Theorem c19_heap_order_is_the_source : forall a b, chain_leb src_pfs_cmp a b = heap_leb fix18 a b.
+Proof. exact ord_tie. Qed.
+Theorem c19_delete_oldest_is_the_source : forall v m s, eval_delete_oldest v m s = delete_oldest v m s.
+Proof. exact delete_oldest_tie. Qed.
+Theorem c19_deletion_loops_are_the_source :
+  (forall mm thr, loop_test src_pfs_older_cmp mm thr = (mm <? thr)) /\
+  (forall len mx, loop_test src_pfs_over_cmp len mx = (mx <? len)).
+Proof. exact (conj older_loop_tie over_loop_tie). Qed.
+Theorem c19_push_is_the_source : forall b18 m e ps, eval_pstmts m e src_pfs_push ps = push (post b18) m e ps.
+Proof. exact push_tie. Qed.
+Theorem c19_file_set_translation_complete : src_problems_pfs = 0%nat /\ src_pfs_new_shape_ok = true.
+Proof. exact fileset_translated. Qed.
 Theorem c19_translation_complete : src_problems_writer = 0%nat.
 Proof. exact writer_translated. Qed.
 
@@ -317,3 +333,8 @@ Print Assumptions c19_writer_loop_is_the_source.
 Print Assumptions c19_file_name_is_the_source.
 Print Assumptions c19_builder_defaults_are_the_source.
 Print Assumptions c19_translation_complete.
+Print Assumptions c19_heap_order_is_the_source.
+Print Assumptions c19_delete_oldest_is_the_source.
+Print Assumptions c19_deletion_loops_are_the_source.
+Print Assumptions c19_push_is_the_source.
+Print Assumptions c19_file_set_translation_complete.
